@@ -25,6 +25,7 @@ func run(e *harness.Env) {
 		"(di-table) 15 table shapes (1x1, header-only, Nx1, 2x3, 3x2, ragged rows wider/narrower than the header, empty cells, header without cells, 4x3 larger than the small maxima; one unique word set per cell) " +
 		"x every context of <=2 preceding and <=1 (thorough <=2) following elements over {H1,P,LP,IA,TB} x page cut before the table x all 18 size configurations; " +
 		"(text) 20 decorations (printf verbs, backslash/quotes, markdown/HTML/template/regexp-replacement characters) appended to every word x every element kind alone and under a heading x both chunkers x plain and splitting configurations; " +
+		"(pages) every sequence over {H1,H2,P,LP} of length <=4 (thorough <=5) x every cut into 3..4 pages x gap page none/after page 1/after page 2 x both chunkers x plain and splitting configuration; " +
 		"(di-nest) every heading-level sequence over H1..H4 of length <=5 (quick) / <=6 (thorough), one body element per heading; " +
 		"(layout) the same kind of sequences over what model.PageLayout can hold {H1..H4, paragraphs, lists} cut into <=3 pages x ChunkerConfig variants; " +
 		"(layout-nest) every heading-level sequence of length <=4 / <=5 x every subset of headings that have a body paragraph x two page packings. " +
@@ -36,6 +37,7 @@ func run(e *harness.Env) {
 		"clause text: a heading / paragraph / list item / table cell / alt text whose words are all present once must occur verbatim (white space aside) in the concatenated chunk texts; '|' is not in the text alphabet (its escaping in table cells is C15's subject)",
 		"the layout-based chunker carries section headings in SectionPath/SectionTitle (TextWithContext prefix), not in Chunk.Text; a heading counts as covered where the first chunk naming it in SectionPath appears",
 		"page identity is Page.Number",
+		"clause pages: [PageStart,PageEnd] must be exactly [min,max] of the pages of the elements whose words the chunk holds; for the layout-based chunker the heading of the chunk's section (SectionTitle / TextWithContext prefix) may be counted in",
 		"overlap: neither Chunk() nor ChunkDocument[WithConfig]() applies overlap whatever OverlapSize says; ChunkWithOverlapEnabled (sanctioned repeats) is not part of the coverage check",
 	}
 	stop := startProf()
@@ -44,6 +46,7 @@ func run(e *harness.Env) {
 	spaceDINest(e)
 	spaceDITable(e)
 	spaceText(e)
+	spacePages(e)
 	spaceLayout(e)
 	spaceLayoutNest(e)
 }
@@ -217,6 +220,7 @@ type feats struct {
 	minorfirst bool // a heading below MinHeadingLevel occurs before any section-forming heading
 	minortail  bool // a heading below MinHeadingLevel is followed by no paragraph/list of its (open) section
 	introlist  bool // a list-intro paragraph is immediately followed by a list
+	multipage  bool // some section's own content (heading excluded, subsections excluded), or the content before the first section, lies on more than one page
 }
 
 func docFeats(pages [][]kind, majorMax int) feats {
@@ -224,6 +228,12 @@ func docFeats(pages [][]kind, majorMax int) feats {
 	var seq []kind
 	for _, p := range pages {
 		seq = append(seq, p...)
+	}
+	var pageOf []int
+	for pi, p := range pages {
+		for range p {
+			pageOf = append(pageOf, pi)
+		}
 	}
 	var stack []int
 	sectOf := make([]int, len(seq)) // index of the innermost open section heading, -1 none
@@ -251,6 +261,17 @@ func docFeats(pages [][]kind, majorMax int) feats {
 		}
 		if k == kIP && i+1 < len(seq) && seq[i+1].isList() {
 			f.introlist = true
+		}
+	}
+	firstPage := map[int]int{}
+	for i, k := range seq {
+		if k.isHeading() && k.level() <= majorMax {
+			continue
+		}
+		if fp, ok := firstPage[sectOf[i]]; !ok {
+			firstPage[sectOf[i]] = pageOf[i]
+		} else if fp != pageOf[i] {
+			f.multipage = true
 		}
 	}
 	for i, k := range seq {
@@ -497,6 +518,47 @@ func spaceDITable(e *harness.Env) {
 	}
 }
 
+// nested sections spread over at least three pages: every sequence over {H1,H2,P,LP} of length <=4 (quick) /
+// <=5 (thorough) x every cut into 3 or 4 pages (so: a parent with content of its own on an early page and
+// subsections on later ones, a subsection that starts on its parent's page and ends later, ...) x a gap
+// (empty) page nowhere / after the first / after the second page, both chunkers, plain and splitting configuration.
+// For the layout-based chunker only pages of the form H* P* (see canonical) are used.
+func spacePages(e *harness.Env) {
+	maxLen := 4
+	if e.Thorough() {
+		maxLen = 5
+	}
+	e.Note("bound_pages", fmt.Sprintf("sequences of length <=%d over {H1,H2,P,LP} cut into 3..4 pages, gap page none/after p1/after p2", maxLen))
+	dcfgs := diConfigs()[:2]
+	lcfgs := layConfigs()[:2]
+	forSeqs([]kind{kH1, kH2, kP, kLP}, maxLen, false, func(seq []kind) {
+		for _, pages := range cuts(seq, 4) {
+			if len(pages) < 3 {
+				continue
+			}
+			canon := canonical(pages)
+			f := docFeats(pages, 6)
+			for _, gap := range []string{"none", "mid", "after2"} {
+				gi := map[string]int{"none": -1, "mid": 1, "after2": 2}[gap]
+				for _, cfg := range dcfgs {
+					spec := docSpec{pages: pages, empty: gi, hrep: "elem", lpToks: cfg.lpWords, majorMax: 6}
+					base := desc("space", "pages", "ck", "di", "cfg", cfg.name, "hrep", "elem", "pnum", 1, "empty", gap,
+						"skip", yn(f.skip), "pops", yn(f.pops), "doc", spec.String())
+					if mine, only := owned(e, base); mine {
+						evalCase(e, base, only, spec, false, cfg.chunk)
+					}
+				}
+				if !canon {
+					continue
+				}
+				for _, cfg := range lcfgs {
+					layoutCaseGap(e, "pages", pages, gap, gi, cfg)
+				}
+			}
+		}
+	})
+}
+
 // textDeco is the decoration of the documents layoutCase builds (set by spaceText only).
 var textDeco string
 
@@ -665,11 +727,19 @@ var layVariants = []variant{
 	{"elem", 0, "last"},
 }
 
+func layoutCaseGap(e *harness.Env, space string, pages [][]kind, gapName string, gapIdx int, cfg layCfg) {
+	layoutCaseAt(e, space, pages, variant{"elem", 0, gapName}, gapIdx, cfg)
+}
+
 func layoutCase(e *harness.Env, space string, pages [][]kind, v variant, cfg layCfg, extra ...interface{}) {
 	ei, ok := v.emptyIdx(len(pages))
 	if !ok {
 		return
 	}
+	layoutCaseAt(e, space, pages, v, ei, cfg, extra...)
+}
+
+func layoutCaseAt(e *harness.Env, space string, pages [][]kind, v variant, ei int, cfg layCfg, extra ...interface{}) {
 	mm := cfg.cc.MinHeadingLevel
 	f := docFeats(pages, mm)
 	order := "canon"
@@ -679,7 +749,7 @@ func layoutCase(e *harness.Env, space string, pages [][]kind, v variant, cfg lay
 	spec := docSpec{pages: pages, empty: ei, pnumOff: v.off, hrep: "elem", layout: true, lpToks: wordsForChars(cfg.cc.MaxChunkSize), majorMax: mm, deco: textDeco}
 	kv := []interface{}{"space", space, "ck", "layout", "cfg", cfg.name, "pnum", v.off + 1, "empty", v.empty, "order", order,
 		"skip", yn(f.skip), "pops", yn(f.pops), "nested", yn(f.nested), "emptyleaf", yn(f.emptyleaf),
-		"minorfirst", yn(f.minorfirst), "minortail", yn(f.minortail), "introlist", yn(f.introlist)}
+		"minorfirst", yn(f.minorfirst), "minortail", yn(f.minortail), "introlist", yn(f.introlist), "multipage", yn(f.multipage)}
 	kv = append(kv, extra...)
 	kv = append(kv, "doc", spec.String())
 	base := desc(kv...)
